@@ -408,12 +408,31 @@ def eval_request(state, req):
         calc = direct_model.DirectModel(data, model, cutoff=req["cutoff"])
         pars = dict(PARS[req["model"]][req["pars"]])
         return _evaluate(state, lambda: calc(**pars), [pars, data])
+    if kind == "conv":
+        return _conv_eval(state, req["model"], req["fnc"], req["q"], req["pars"], req["res"])
     if kind == "sv":
         inst = _sv_new(state, req["model"])
         for c in req["config"]:
             _sv_apply(inst, c)
         return _sv_eval(state, inst, req["q"], req["fn"])
     raise ValueError(kind)
+
+
+def _conv_eval(state, model, fnc, qkey, parkey, res):
+    """The one-line convenience interface direct_model.Iq / Iqxy."""
+    from sasmodels import direct_model
+    qv = _q(qkey)
+    pars = _pars_obj(state, model, parkey)
+    if fnc == "Iq":
+        kw = {}
+        if res == "dq":
+            kw["dq"] = 0.05 * qv[0]
+        elif res == "slit":
+            kw["ql"], kw["qw"] = 0.02, 0.002
+        extra = list(kw.values())
+        return _evaluate(state, lambda: direct_model.Iq(MODELS[model], qv[0], **dict(kw, **pars)),
+                         [pars] + qv + [e for e in extra if isinstance(e, np.ndarray)])
+    return _evaluate(state, lambda: direct_model.Iqxy(MODELS[model], qv[0], qv[1], **pars), [pars] + qv)
 
 
 def _sv_eval(state, inst, qkey, fn):
@@ -462,6 +481,11 @@ def child_handler(state, cmd):
             calc, data = objs[op["d"]]
             pars = _pars_obj(state, op["model"], op["pars"])
             return _evaluate(state, lambda: calc(**pars), [pars, data])
+        elif kind == "conv":
+            return _conv_eval(state, op["model"], op["fnc"], op["q"], op["pars"], op["res"])
+        elif kind == "sv_reload":
+            # what SasView does when the plugin list is refreshed
+            state.setdefault("sv_classes", {})[op["model"]] = sasview_model.load_custom_model(MODELS[op["model"]])
         elif kind == "sv_new":
             objs[op["id"]] = _sv_new(state, op["model"])
         elif kind == "sv_set":
@@ -505,6 +529,9 @@ def request_of(op, objs):
         m = objs[d["m"]]
         return {"kind": "direct", "model": m["model"], "dtype": m["dtype"], "data": d["data"],
                 "pars": op["pars"], "cutoff": d["cutoff"]}
+    if kind == "conv":
+        return {"kind": "conv", "model": op["model"], "fnc": op["fnc"], "q": op["q"], "pars": op["pars"],
+                "res": op["res"]}
     if kind == "sv_eval":
         s = objs[op["s"]]
         return {"kind": "sv", "model": s["model"], "config": [list(c) for c in s["config"]],
@@ -621,7 +648,7 @@ def run_history(cfg, keep_events=False):
                 continue              # its creator was dropped by minimisation
             if kind == "call" and objs[op["k"]]["m"] not in objs:
                 continue
-            if kind in ("release_kernel", "release_model", "wipe_cache", "reset_env"):
+            if kind in ("release_kernel", "release_model", "wipe_cache", "reset_env", "sv_reload"):
                 fired[kind] = fired.get(kind, 0) + 1
             status, payload = session.call(("op", op))
             if status == "died":
@@ -637,7 +664,7 @@ def run_history(cfg, keep_events=False):
             # ---- an evaluating operation ----
             req = request_of(op, objs)
             evaluated += 1
-            target = op.get("k") or op.get("d") or op.get("s")
+            target = op.get("k") or op.get("d") or op.get("s") or ("conv:" + op.get("model", ""))
             prev = last_on.get(target)
             if prev is not None:
                 nontrivial = True
@@ -814,7 +841,7 @@ def gen_history(w, n_ops):
                 ops.append({"op": "direct_call", "d": d["id"], "model": d["model"], "pars": w.choice(keys)})
                 if w.random() < 0.3:
                     ops.append(dict(ops[-1]))
-        elif r < 0.97:
+        elif r < 0.93:
             s = w.choice(svs) if svs and w.random() < 0.75 else add_sv()
             rr = w.random()
             name = s["model"]
@@ -839,8 +866,18 @@ def gen_history(w, n_ops):
                 if name == "sphere@hardsphere" and w.random() < 0.3:
                     fn, two_d = "composition", False
                 ops.append({"op": "sv_eval", "s": s["id"], "q": w.choice(Q2D if two_d else Q1D), "fn": fn})
-        else:
+        elif r < 0.955:
             ops.append({"op": "reset_env"})
+        elif r < 0.965:
+            ops.append({"op": "sv_reload", "model": w.choice(["pyplug", "allpd"])})
+        else:
+            name = w.choice(["sphere", "cylinder", "sphere@hardsphere", "pyplug", "allpd", "sphere+cylinder"])
+            keys = [k for k in sorted(PARS[name]) if k not in ("pd4", "pd140", "mag", "mode", "mode1", "pd2", "reff")]
+            two = name in ("sphere", "cylinder") and w.random() < 0.3
+            ops.append({"op": "conv", "model": name, "fnc": "Iqxy" if two else "Iq", "q": w.choice(Q2D if two else Q1D),
+                        "pars": w.choice(keys), "res": None if two else w.choice([None, None, "dq", "slit"])})
+            if w.random() < 0.5:
+                ops.append(dict(ops[-1]))
     return ops
 
 
